@@ -1424,7 +1424,13 @@ size_t Annotator::itemCount(const std::string &id)
 void Annotator::AnnotatorImpl::doUpdateComponentHash(const ComponentPtr &component, std::string &idsString)
 {
     for (size_t i = 0; i < component->variableCount(); ++i) {
-        idsString += "v=" + std::to_string(i) + component->variable(i)->id();
+        auto variable = component->variable(i);
+        idsString += "v=" + std::to_string(i) + variable->id();
+        for (size_t e = 0; e < variable->equivalentVariableCount(); ++e) {
+            auto equivalentVariable = variable->equivalentVariable(e);
+            idsString += "vm=" + Variable::equivalenceMappingId(variable, equivalentVariable)
+                         + "vc=" + Variable::equivalenceConnectionId(variable, equivalentVariable);
+        }
     }
 
     for (size_t i = 0; i < component->resetCount(); ++i) {
